@@ -40,6 +40,11 @@ CHECKS["C02"] = (TV, "translation validation: symbolic execution (SSA->SMT, z3) 
     "rt.Eff(id, e) around yielded expressions / conditions / initialisers and effect statements around yields; the solver decides flat log equality for all "
     "inputs, which (deterministic engine, markers in the log) implies equality at every truncation point k <= K and for 2 advances after exhaustion. Program dimension sampled.", "§6 C02")
 
+CHECKS["C18"] = (TV, "translation validation: symbolic execution (SSA->SMT, z3) of programs with one injected panic site, advances wrapped in recover",
+    "C01-style corpus with one panic site (explicit panic with symbolic value, division by a symbolic zero, symbolic index out of range, nil map store, nil dereference, "
+    "panic inside a delegate) at a random statement position; the driver wraps every advance in defer/recover and logs which advance panicked with which value; "
+    "the solver decides log equality between source-under-coroutine-semantics (panic unwinds into the resumer) and compiled code + real seq for all inputs within the bounds.", "§6 C18")
+
 NA = {
     "C11": "compiler acceptance/buildability is decided by the compiler pipeline itself (go/packages, go/types, reflection-based AST rewriting, printer, file system); it cannot be encoded by an SSA->SMT translator and has no symbolic dimension once a program is fixed — enumeration of concrete compiler runs would be a different technique (DESIGN §7)",
     "C15": "byte-identical output across runs/configurations is a statement about repeated process runs, map iteration in the compiler and leftovers on disk; no symbolic inputs and the code is not encodable (DESIGN §7)",
